@@ -61,6 +61,45 @@ theorem getNode_all {P : Pfx → Prop} : ∀ {t : Node α}, t.All P → ∀ {q c
         · exact getNode_all b h
         · exact getNode_all e h
 
+theorem getNode_cidr : ∀ {t : Node α} {q : Pfx} {c' d' l' r'}, t.getNode W q = node c' d' l' r' → c' = q
+  | .nil, _, _, _, _, _, h => by simp [getNode] at h
+  | .node c d l r, q, c', d', l', r', h => by
+    unfold getNode at h
+    split at h
+    · cases h
+    · split at h
+      · rename_i he; cases h; exact he.symm
+      · split at h
+        · exact getNode_cidr h
+        · exact getNode_cidr h
+
+/-- If `q` is a node of the trie (stored, or a data-less intermediate node), the walk of
+`LPM(q)` stops at it and never meets a longer node. -/
+theorem walkOk_of_getNode : ∀ {t : Node α}, t.Inv W → ∀ {q : Pfx} {c' d' l' r'},
+    t.getNode W q = node c' d' l' r' → WalkOk W t q
+  | .nil, _, _, _, _, _, _, h => by simp [getNode] at h
+  | .node c d l r, hi, q, c', d', l', r', h => by
+    intro hcont
+    unfold getNode at h
+    simp only [hcont, Bool.not_true, Bool.false_eq_true, if_false] at h
+    by_cases hqc : q = c
+    · subst hqc; exact ⟨Nat.le_refl _, fun hne => absurd rfl hne⟩
+    · simp only [hqc, if_false] at h
+      by_cases hb : nthBit W q.addr (c.len + 1) = 0
+      · simp only [hb, if_true] at h
+        have hu := getNode_all hi.2.1 h
+        have hq' : c' = q := by
+          -- the found node carries the query's CIDR
+          revert h; intro h
+          exact (getNode_cidr h)
+        rw [hq'] at hu
+        exact ⟨Nat.le_of_lt hu.2.2.1, fun _ => ⟨fun _ => walkOk_of_getNode hi.2.2.2.1 h, fun hnb => absurd hb hnb⟩⟩
+      · simp only [hb, if_false] at h
+        have hu := getNode_all hi.2.2.1 h
+        have hq' : c' = q := getNode_cidr h
+        rw [hq'] at hu
+        exact ⟨Nat.le_of_lt hu.2.2.1, fun _ => ⟨fun hb0 => absurd hb0 hb, fun _ => walkOk_of_getNode hi.2.2.2.2.1 h⟩⟩
+
 /-- The node found for `q` is `q`'s node; below it hang exactly the stored prefixes strictly inside `q`. -/
 theorem getNode_spec : ∀ {t : Node α}, t.Inv W → ∀ {q : Pfx}, q.WF W → ∀ {c' d' l' r'},
     t.getNode W q = node c' d' l' r' →
